@@ -6,7 +6,7 @@
    wsum s = sum of the STORED weights, hist_count = number of roundings of the total
    (insert 2, update 1, remove 1), hist_total = sum of all weights ever handed in,
    ldf_peak = max over the operations of (stored sum before + incoming weight). *)
-From EoNV Require Import Prelude Samp ListDict ListDictP ListDictF ListDictFP ListDictFPr
+From EoNV Require Import Prelude Samp ListDict ListDictP ListDictF ListDictFP ListDictFPr ListDictFPr2
   ListDictFP2 ListDictFP3 ListDictFP4 ListDictFPb.
 From Coq Require Import Qabs.
 
@@ -158,13 +158,10 @@ Proof.
 Qed.
 
 (* the tracked maximum bounds every stored weight, for a rounding whose values are
-   representable (idempotent).  _partial: idempotence (and, below, monotonicity) hold for
-   IEEE-754 round-to-nearest but are NOT proved for rnd53 here, so the binary64 instance is
-   missing; the check evaluates max_weight >= every stored weight on the class after
-   every history (harness/c16f.py, oracle 'max-bound') *)
+   representable (idempotent; proved for rnd53 below: C16f_binary64_max_weight_is_upper_bound) *)
 Hypothesis rnd_idem : forall x, rnd (rnd x) == rnd x.
 
-Theorem C16f_max_weight_is_upper_bound_partial :
+Theorem C16f_max_weight_is_upper_bound :
   forall (ops : list (op K)) (s : ld K),
     Forall (op_ok K true) ops -> ldf_run K Keqb rnd (ld_empty true) ops = Ok s ->
     forall k, wread K s k <= maxw s \/ wt s k = None.
@@ -173,7 +170,11 @@ Proof.
 Qed.
 
 (* hence, for a monotone rounding that leaves 1 alone, every accept threshold
-   fl(weight/max_weight) is a probability *)
+   fl(weight/max_weight) is a probability.  _partial: monotonicity holds for IEEE-754
+   round-to-nearest but is NOT proved for rnd53 here, so the binary64 instance of THIS
+   theorem is missing (weight <= max_weight is proved, so the threshold is at most 1+eps);
+   the check evaluates weight <= max_weight and the threshold on the class after every
+   history (harness/c16f.py, oracles 'max-bound', 'threshold') *)
 Hypothesis rnd_mono : forall x y, x <= y -> rnd x <= rnd y.
 Hypothesis rep_one : rnd 1 == 1.
 
@@ -223,6 +224,17 @@ Theorem C16f_binary64_stored_weights_exact :
     forall x, oQeq (abs K s x) (fold_left (sp_step K Keqb) ops (sp_empty K) x).
 Proof. exact b64_refines_fresh. Qed.
 
+Theorem C16f_binary64_rounding_idempotent : forall x, rnd53 (rnd53 x) == rnd53 x.
+Proof. exact rnd53_idem. Qed.
+
+(* under binary64 the tracked maximum bounds every stored weight after every history *)
+Theorem C16f_binary64_max_weight_is_upper_bound :
+  forall (K : Type) (Keqb : K -> K -> bool), (forall a b, reflect (a = b) (Keqb a b)) ->
+  forall (ops : list (op K)) (s : ld K),
+    Forall (op_ok K true) ops -> ldf_run K Keqb rnd53 (ld_empty true) ops = Ok s ->
+    forall k, wread K s k <= maxw s \/ wt s k = None.
+Proof. exact b64_max_weight_bounds. Qed.
+
 (* non-vacuity: on the doubles 0.1, 0.2, 0.3, 0.7 rounding really happens (drift <> 0)
    and the bound holds and is small *)
 Example C16f_history_nonvacuous : C16f_example_statement.
@@ -249,13 +261,15 @@ Print Assumptions C16f_insert_stores_exactly.
 Print Assumptions C16f_update_relative_error.
 Print Assumptions C16f_stored_weights_exact_when_increments_create.
 Print Assumptions C16f_stored_weights_relative_every_history.
-Print Assumptions C16f_max_weight_is_upper_bound_partial.
+Print Assumptions C16f_max_weight_is_upper_bound.
 Print Assumptions C16f_accept_threshold_is_probability_partial.
 Print Assumptions C16f_binary64_rounding_error.
 Print Assumptions C16f_binary64_rounding_respects_eq.
 Print Assumptions C16f_binary64_drift_bound_history.
 Print Assumptions C16f_binary64_drift_bound_peak.
 Print Assumptions C16f_binary64_stored_weights_exact.
+Print Assumptions C16f_binary64_rounding_idempotent.
+Print Assumptions C16f_binary64_max_weight_is_upper_bound.
 Print Assumptions C16f_history_nonvacuous.
 Print Assumptions C16f_total_can_be_negative.
 Print Assumptions C16f_total_can_be_absorbed_to_zero.
